@@ -530,7 +530,12 @@ def main(argv=None):
     mod = importlib.import_module(f"props.{a.prop.lower()}")
     if a.replay:
         payload = json.load(open(a.replay))
-        r = mod.replay(payload)
+        if payload.get("kind") == "warm-history":
+            import coremodel
+            import coreprop
+            r = coremodel.replay_warm(payload, coreprop.same)
+        else:
+            r = mod.replay(payload)
         print(json.dumps(r, indent=1, default=str))
         return 1 if r.get("fails") else 0
     run = Run(a.prop, a.tier, a.seed)
@@ -570,6 +575,7 @@ def drive(run: Run, mod):
     # the property oracle on the implementation
     broken = run.broken()
     failures = mod.search(run, broken)      # list of dicts, each a concrete failing input
+    failures = list(failures) + list(getattr(run, "tie_failures", []))      # failing inputs found by shared ties (warm replay)
     fresh = []
     for f in failures:
         hit = next((e for e in entries if mod.matches(e, f)), None)
